@@ -253,6 +253,15 @@ def run(spec):
                 lambda: ('engines built from composite / parts / store emit different trajectories',
                          _first_diff(d1, ea.emitter.get_data()), _first_diff(d1, eb.emitter.get_data())), mechanism=mech)
 
+        # ... and a Composite made from a store (Composite(store=...)) runs like the store it was made from
+        from vivarium.core.composer import Composite as _Composite
+        cs2 = C(cfg).generate()
+        ed = Engine(composite=_Composite(store=cs2.generate_store({'initial_state': copy.deepcopy(init)})), display_info=False)
+        ed.update(3)
+        V.check('entry_points_same_run', ed.emitter.get_data() == eb.emitter.get_data(),
+                lambda: ('an engine built from Composite(store=S) runs differently from the engine built from the store S',
+                         _first_diff(eb.emitter.get_data(), ed.emitter.get_data())))
+
         # merge sequences
         T = C(cfg).generate()
         T0 = snap(T)
